@@ -12,6 +12,9 @@ Ops (all on the real `agent.MergeConfig` / `agent.ReadConfigPaths`):
   `assoc A B C`      → `<merge(merge(A,B),C)> <merge(A,merge(B,C))>`
   `reuse BASE B C`   → `<r1 = merge(BASE,B), read after the second call> <r2 = merge(BASE,C)> <ok|result-changed|input-storage-written|…+…>`
                        (the executor rebuilds BASE's lists with cap > len and compares their whole backing arrays)
+  `decode CFG ORACLE u|-` → `<DecodeConfig of the JSON rendering of CFG's JSON-settable fields>` | `error`;
+                       ORACLE = Go's `time.ParseDuration` on every non-empty `*Raw` string (`<hex>:<ns>|e;…`), `u` = the
+                       file also carries an unknown key
   `read <path>…`     → `<result>` | `error`; path = `m` missing, `f:<cfg>` file, `f!` undecodable file,
                        `d:<hexname>~<j|b|s>~<cfg>|…` directory (j: file, b: undecodable file, s: sub-directory)
 
@@ -75,9 +78,6 @@ def parseVal (k : Kind) (s : String) : Option FieldVal :=
     else ((body.splitOn ",").mapM stringOfHex?).map .list
   | _, _ => none
 
-def setField (c : Config) (name : String) (v : FieldVal) : Config :=
-  c.map fun p => if p.1 == name then (name, v) else p
-
 def parseCfg (t : List FieldSpec) (s : String) : Option Config :=
   if s == "-" then some (zero t) else
   (s.splitOn ";").foldlM (fun c item =>
@@ -88,15 +88,16 @@ def parseCfg (t : List FieldSpec) (s : String) : Option Config :=
       | none => none
     | _ => none) (zero t)
 
-/-! heap view of the inputs: every non-nil map / non-empty slice gets its own object -/
-def toRef (t : List FieldSpec) (h : Heap) (c : Config) : Heap × RConfig :=
+/-! heap view of the inputs: every non-nil map / non-empty slice gets its own object (a slice's backing
+array has `spare` unused cells beyond its length) -/
+def toRef (t : List FieldSpec) (h : Heap) (c : Config) (spare : Nat := 0) : Heap × RConfig :=
   t.foldl (fun (acc : Heap × RConfig) fs =>
     let (h, rc) := acc
     match get c fs.name with
     | .tags none => (h, rc ++ [(fs.name, .ref none)])
     | .tags (some m) => (h ++ [.tags m], rc ++ [(fs.name, .ref (some h.length))])
-    | .list [] => (h, rc ++ [(fs.name, .ref none)])
-    | .list l => (h ++ [.strs l], rc ++ [(fs.name, .ref (some h.length))])
+    | .list [] => (h, rc ++ [(fs.name, .slice none)])
+    | .list l => (h ++ [.strs (l ++ List.replicate spare "")], rc ++ [(fs.name, .slice (some (h.length, l.length)))])
     | v => (h, rc ++ [(fs.name, .scalar v)])) (h, [])
 
 def sameCfg (t : List FieldSpec) (x y : Config) : Bool :=
@@ -117,7 +118,7 @@ def modelMerge (a b : Config) : String :=
 /-- model of op `reuse`, entirely on the heap view: the same base is merged with `b`, then with
 `c`; the first result is read again AFTER the second call, and every input is re-read. -/
 def modelReuse (base b c : Config) : String :=
-  let (h0, rbase) := toRef table [] base
+  let (h0, rbase) := toRef table [] base 3        -- the executor rebuilds the base's lists with cap = len + 3
   let (h1, rb) := toRef table h0 b
   let (h2, rc) := toRef table h1 c
   let (h3, r1) := mergeH table h2 rbase rb
@@ -131,6 +132,16 @@ def modelReuse (base b c : Config) : String :=
     | false, true => "input-storage-written"
     | true, true => "result-changed+input-storage-written"
   showCfg table (deref table h4 r1) ++ " " ++ showCfg table (deref table h4 r2) ++ " " ++ flag
+
+/-- `time.ParseDuration` as observed by the harness: `_` | `<hexstring>:<ns>|e;…` -/
+def parseOracle (s : String) : Option (List (String × Option Int)) :=
+  if s == "_" then some [] else
+  (s.splitOn ";").mapM fun item =>
+    match item.splitOn ":" with
+    | [h, r] => match stringOfHex? h with
+      | some x => if r == "e" then some (x, none) else r.toInt?.map fun n => (x, some n)
+      | none => none
+    | _ => none
 
 /-- the documented merge of two sources (fields without a documented rule keep the earlier value) -/
 def specMerge (a b : Config) : Config :=
@@ -212,6 +223,38 @@ def step (s : Unit) (op : List String) (impl : String) : LineOut Unit :=
             | _, _ => some ("malformed", impl)
         | _ => some ("malformed", impl) }
     | _, _, _ => { state := s, model := some "bad-op" }
+  | ["decode", sc, so, su] =>
+    match parseCfg table sc, parseOracle so with
+    | some c, some orc =>
+      let parseDur := fun (x : String) => (alookup orc x).getD none
+      let unknown := su == "u"
+      let m := if unknown then "error" else
+        match decodePost parseDur Gen.MergeConfig.durationPairs c with
+        | none => "error"
+        | some c' => showCfg table c'
+      -- the monitor's own reading: a field X with a twin XRaw is a duration set from XRaw
+      let twins := table.filterMap fun fs =>
+        if endsWithRaw fs.name then some (fs.name, String.ofList (fs.name.toList.take (fs.name.length - 3))) else none
+      let bad := twins.any fun tw => match get c tw.1 with
+        | .str x => x != "" && (parseDur x).isNone
+        | _ => false
+      let exp : Option Config := if unknown || bad then none else
+        some (twins.foldl (fun acc tw => match get c tw.1 with
+          | .str x => if x != "" then setField acc tw.2 (.int ((parseDur x).getD 0)) else acc
+          | _ => acc) c)
+      let mon : Option (String × String) :=
+        match exp with
+        | none => if impl == "error" then none else some ("decode-mismatch", s!"an unknown key / unparsable duration must make DecodeConfig fail, got {impl}")
+        | some e =>
+          if impl == "error" then some ("decode-mismatch", "DecodeConfig failed on a decodable file")
+          else match parseCfg table impl with
+            | none => some ("malformed", impl)
+            | some r =>
+              match (table.find? fun fs => !(sameVal (get r fs.name) (get e fs.name))).map (·.name) with
+              | some f => some ("decode-mismatch", s!"DecodeConfig: field {f} is {showVal (get r f)}, expected {showVal (get e f)}")
+              | none => none
+      { state := s, model := some m, monitor := mon }
+    | _, _ => { state := s, model := some "bad-op" }
   | ["assoc", sa, sb, sc] =>
     match parseCfg table sa, parseCfg table sb, parseCfg table sc with
     | some a, some b, some c =>
@@ -231,7 +274,7 @@ def step (s : Unit) (op : List String) (impl : String) : LineOut Unit :=
     match paths.mapM parsePath with
     | none => { state := s, model := some "bad-op" }
     | some ps =>
-      let m := match readPaths table ps with
+      let m := match readPathsS Gen.MergeConfig.readShape table ps with
         | none => "error"
         | some c => showCfg table c
       let mon : Option (String × String) :=
